@@ -6,7 +6,8 @@ COQ_PROP = "Properties/C20.v"; COQ_DIRS = ["Common", "Own"]
 COQ_MODULE = "Own.Model"; RUN_FN = "run"
 THEOREMS = ["C20_freed_at_most_once", "C20_no_release_after_free", "C20_release_terminates",
             "C20_all_freed_after_root_release", "C20_user_objects_freed_exactly_once",
-            "C20_checker_sound", "C20_timer_cycle_stays_allocated", "C20_survivors_hang_on_timer_cycles"]
+            "C20_checker_sound", "C20_timer_cycle_stays_allocated", "C20_survivors_hang_on_timer_cycles",
+            "C20_model_verdict_forces_release", "C20_reachable_graphs_wf_partial"]
 QUICK_N = 2500; THOROUGH_N = 120000
 XCHECK_N = 30
 RULE = ("scripts = (module tree with nested children, 0..3 gates per module, gate links with/without a queueing channel forming chains, "
